@@ -342,6 +342,27 @@ def r5_test_start_plugs(report, repo):
                'test_start runs only if its plugs initialised',
                'test_start can run although its plug initialisation failed')
   ip = repo.func(TE, 'TestExecutor._initialize_plugs')
+  gi = lib.cfg(ip)
+  okr = True
+  nret = 0
+  for n_ in gi.nodes:
+    if n_.kind == 'stmt' and isinstance(n_.ast, ast.Return):
+      nret += 1
+      in_handler = gi.dominated_by(n_, lambda x: x.kind == 'handler')
+      val = n_.ast.value.value if isinstance(n_.ast.value, ast.Constant) else '?'
+      if val is not (True if in_handler else False):
+        okr = False
+  falls_off = any(l != 'ret' and t is gi.exit for n_ in gi.nodes
+                  for l, t in n_.succs)
+  report.check(okr and nret == 2 and not falls_off, rule, ip.qualname,
+               'failure-is-reported', ip.node,
+               '_initialize_plugs returns True exactly on the failure path and '
+               'False on success',
+               '_initialize_plugs does not report a plug constructor failure '
+               'to its caller (returns are %s): phases run although plug '
+               'initialisation failed' % [
+                   norm(x.ast) for x in gi.nodes if x.kind == 'stmt' and
+                   isinstance(x.ast, ast.Return)])
   cs = core.calls_in(ip.node, attr='initialize_plugs')
   ok = len(cs) == 1 and dotted(core.get_kw(cs[0], 'plug_types', 0)) == \
       'plug_types' and lib.shielded_by_try(cs[0]) is not None
